@@ -168,7 +168,6 @@ Record env := mkEnv {
   nusers : nat;              (* actors below nusers are ordinary addresses, the others module accounts *)
   now : Z;                   (* block time (unix seconds) *)
   is_macc : nat -> bool;     (* module account *)
-  acc_exists : nat -> bool;  (* x/auth has an account for the address *)
   gov : nat;                 (* community keeper authority = x/gov module account *)
   nden : nat;                (* deposit denoms are 0 .. nden-1 *)
   npool : nat;
@@ -203,22 +202,25 @@ Record state := mkState {
   sav_dep : nat -> nat -> Z;
   swap_pools : nat -> Z * Z * Z;            (* pool -> reserves A, reserves B, total shares *)
   swap_shares : nat -> nat -> Z;            (* address, pool *)
-  earn_shares : nat -> nat -> Z             (* address, vault denom -> share mantissa *)
+  earn_shares : nat -> nat -> Z;            (* address, vault denom -> share mantissa *)
+  (* auth *)
+  accs : nat -> bool                        (* x/auth has an account for the address *)
 }.
 
 (* functional record update, one setter per component *)
-Definition set_prices s v := mkState (markets s) v (assets s) (iss_supply s) (iss_bal s) (b3assets s) (swaps s) (committees s) (proposals s) (next_pid s) (votes s) (cparams s) (cdps s) (ncdp s) (cdp_deps s) (hard_dep s) (sav_dep s) (swap_pools s) (swap_shares s) (earn_shares s).
-Definition set_assets s v := mkState (markets s) (prices s) v (iss_supply s) (iss_bal s) (b3assets s) (swaps s) (committees s) (proposals s) (next_pid s) (votes s) (cparams s) (cdps s) (ncdp s) (cdp_deps s) (hard_dep s) (sav_dep s) (swap_pools s) (swap_shares s) (earn_shares s).
-Definition set_iss s sup b := mkState (markets s) (prices s) (assets s) sup b (b3assets s) (swaps s) (committees s) (proposals s) (next_pid s) (votes s) (cparams s) (cdps s) (ncdp s) (cdp_deps s) (hard_dep s) (sav_dep s) (swap_pools s) (swap_shares s) (earn_shares s).
-Definition set_swaps s v := mkState (markets s) (prices s) (assets s) (iss_supply s) (iss_bal s) (b3assets s) v (committees s) (proposals s) (next_pid s) (votes s) (cparams s) (cdps s) (ncdp s) (cdp_deps s) (hard_dep s) (sav_dep s) (swap_pools s) (swap_shares s) (earn_shares s).
-Definition set_props s p n := mkState (markets s) (prices s) (assets s) (iss_supply s) (iss_bal s) (b3assets s) (swaps s) (committees s) p n (votes s) (cparams s) (cdps s) (ncdp s) (cdp_deps s) (hard_dep s) (sav_dep s) (swap_pools s) (swap_shares s) (earn_shares s).
-Definition set_votes s v := mkState (markets s) (prices s) (assets s) (iss_supply s) (iss_bal s) (b3assets s) (swaps s) (committees s) (proposals s) (next_pid s) v (cparams s) (cdps s) (ncdp s) (cdp_deps s) (hard_dep s) (sav_dep s) (swap_pools s) (swap_shares s) (earn_shares s).
-Definition set_cparams s v := mkState (markets s) (prices s) (assets s) (iss_supply s) (iss_bal s) (b3assets s) (swaps s) (committees s) (proposals s) (next_pid s) (votes s) v (cdps s) (ncdp s) (cdp_deps s) (hard_dep s) (sav_dep s) (swap_pools s) (swap_shares s) (earn_shares s).
-Definition set_cdp s c d := mkState (markets s) (prices s) (assets s) (iss_supply s) (iss_bal s) (b3assets s) (swaps s) (committees s) (proposals s) (next_pid s) (votes s) (cparams s) c (ncdp s) d (hard_dep s) (sav_dep s) (swap_pools s) (swap_shares s) (earn_shares s).
-Definition set_hard s v := mkState (markets s) (prices s) (assets s) (iss_supply s) (iss_bal s) (b3assets s) (swaps s) (committees s) (proposals s) (next_pid s) (votes s) (cparams s) (cdps s) (ncdp s) (cdp_deps s) v (sav_dep s) (swap_pools s) (swap_shares s) (earn_shares s).
-Definition set_sav s v := mkState (markets s) (prices s) (assets s) (iss_supply s) (iss_bal s) (b3assets s) (swaps s) (committees s) (proposals s) (next_pid s) (votes s) (cparams s) (cdps s) (ncdp s) (cdp_deps s) (hard_dep s) v (swap_pools s) (swap_shares s) (earn_shares s).
-Definition set_swap s p sh := mkState (markets s) (prices s) (assets s) (iss_supply s) (iss_bal s) (b3assets s) (swaps s) (committees s) (proposals s) (next_pid s) (votes s) (cparams s) (cdps s) (ncdp s) (cdp_deps s) (hard_dep s) (sav_dep s) p sh (earn_shares s).
-Definition set_earn s v := mkState (markets s) (prices s) (assets s) (iss_supply s) (iss_bal s) (b3assets s) (swaps s) (committees s) (proposals s) (next_pid s) (votes s) (cparams s) (cdps s) (ncdp s) (cdp_deps s) (hard_dep s) (sav_dep s) (swap_pools s) (swap_shares s) v.
+Definition set_prices s v := mkState (markets s) v (assets s) (iss_supply s) (iss_bal s) (b3assets s) (swaps s) (committees s) (proposals s) (next_pid s) (votes s) (cparams s) (cdps s) (ncdp s) (cdp_deps s) (hard_dep s) (sav_dep s) (swap_pools s) (swap_shares s) (earn_shares s) (accs s).
+Definition set_assets s v := mkState (markets s) (prices s) v (iss_supply s) (iss_bal s) (b3assets s) (swaps s) (committees s) (proposals s) (next_pid s) (votes s) (cparams s) (cdps s) (ncdp s) (cdp_deps s) (hard_dep s) (sav_dep s) (swap_pools s) (swap_shares s) (earn_shares s) (accs s).
+Definition set_iss s sup b := mkState (markets s) (prices s) (assets s) sup b (b3assets s) (swaps s) (committees s) (proposals s) (next_pid s) (votes s) (cparams s) (cdps s) (ncdp s) (cdp_deps s) (hard_dep s) (sav_dep s) (swap_pools s) (swap_shares s) (earn_shares s) (accs s).
+Definition set_swaps s v := mkState (markets s) (prices s) (assets s) (iss_supply s) (iss_bal s) (b3assets s) v (committees s) (proposals s) (next_pid s) (votes s) (cparams s) (cdps s) (ncdp s) (cdp_deps s) (hard_dep s) (sav_dep s) (swap_pools s) (swap_shares s) (earn_shares s) (accs s).
+Definition set_props s p n := mkState (markets s) (prices s) (assets s) (iss_supply s) (iss_bal s) (b3assets s) (swaps s) (committees s) p n (votes s) (cparams s) (cdps s) (ncdp s) (cdp_deps s) (hard_dep s) (sav_dep s) (swap_pools s) (swap_shares s) (earn_shares s) (accs s).
+Definition set_votes s v := mkState (markets s) (prices s) (assets s) (iss_supply s) (iss_bal s) (b3assets s) (swaps s) (committees s) (proposals s) (next_pid s) v (cparams s) (cdps s) (ncdp s) (cdp_deps s) (hard_dep s) (sav_dep s) (swap_pools s) (swap_shares s) (earn_shares s) (accs s).
+Definition set_cparams s v := mkState (markets s) (prices s) (assets s) (iss_supply s) (iss_bal s) (b3assets s) (swaps s) (committees s) (proposals s) (next_pid s) (votes s) v (cdps s) (ncdp s) (cdp_deps s) (hard_dep s) (sav_dep s) (swap_pools s) (swap_shares s) (earn_shares s) (accs s).
+Definition set_cdp s c d := mkState (markets s) (prices s) (assets s) (iss_supply s) (iss_bal s) (b3assets s) (swaps s) (committees s) (proposals s) (next_pid s) (votes s) (cparams s) c (ncdp s) d (hard_dep s) (sav_dep s) (swap_pools s) (swap_shares s) (earn_shares s) (accs s).
+Definition set_hard s v := mkState (markets s) (prices s) (assets s) (iss_supply s) (iss_bal s) (b3assets s) (swaps s) (committees s) (proposals s) (next_pid s) (votes s) (cparams s) (cdps s) (ncdp s) (cdp_deps s) v (sav_dep s) (swap_pools s) (swap_shares s) (earn_shares s) (accs s).
+Definition set_sav s v := mkState (markets s) (prices s) (assets s) (iss_supply s) (iss_bal s) (b3assets s) (swaps s) (committees s) (proposals s) (next_pid s) (votes s) (cparams s) (cdps s) (ncdp s) (cdp_deps s) (hard_dep s) v (swap_pools s) (swap_shares s) (earn_shares s) (accs s).
+Definition set_swap s p sh := mkState (markets s) (prices s) (assets s) (iss_supply s) (iss_bal s) (b3assets s) (swaps s) (committees s) (proposals s) (next_pid s) (votes s) (cparams s) (cdps s) (ncdp s) (cdp_deps s) (hard_dep s) (sav_dep s) p sh (earn_shares s) (accs s).
+Definition set_accs s v := mkState (markets s) (prices s) (assets s) (iss_supply s) (iss_bal s) (b3assets s) (swaps s) (committees s) (proposals s) (next_pid s) (votes s) (cparams s) (cdps s) (ncdp s) (cdp_deps s) (hard_dep s) (sav_dep s) (swap_pools s) (swap_shares s) (earn_shares s) v.
+Definition set_earn s v := mkState (markets s) (prices s) (assets s) (iss_supply s) (iss_bal s) (b3assets s) (swaps s) (committees s) (proposals s) (next_pid s) (votes s) (cparams s) (cdps s) (ncdp s) (cdp_deps s) (hard_dep s) (sav_dep s) (swap_pools s) (swap_shares s) v (accs s).
 
 Definition mem (a : nat) (l : list nat) : bool := existsb (Nat.eqb a) l.
 
@@ -268,7 +270,8 @@ Definition issue (e : env) (s : state) (a d : nat) (amt : Z) (rcv : nat) : outco
       else if as_rl_active x && (as_rl_limit x <? iss_supply s d + amt) then Err
       else
         let sup := if as_rl_active x then upd (iss_supply s) d (iss_supply s d + amt) else iss_supply s in
-        Ok (set_iss s sup (upd2 (iss_bal s) rcv d (iss_bal s rcv d + amt))) []
+        (* the bank creates the receiver's account when it does not exist *)
+        Ok (set_accs (set_iss s sup (upd2 (iss_bal s) rcv d (iss_bal s rcv d + amt))) (upd (accs s) rcv true)) []
   end.
 
 (* issuance.go RedeemTokens *)
@@ -292,7 +295,7 @@ Definition block (e : env) (s : state) (a d b : nat) : outcome state coins :=
       if negb (as_blockable x) then Err
       else if negb (Nat.eqb a (as_owner x)) then Err
       else if mem b (as_blocked x) then Err                (* ErrAccountAlreadyBlocked *)
-      else if negb (acc_exists e b) then Err               (* ErrAccountNotFound *)
+      else if negb (accs s b) then Err                     (* ErrAccountNotFound *)
       else if Nat.eqb b (as_owner x) then Panic
       else Ok (put_asset s (with_blocked x (as_blocked x ++ [b]))) []
   end.
@@ -352,7 +355,8 @@ Definition create_swap (e : env) (s : state) (a rcp d : nat) (amt : Z) (rest : b
       if Nat.eqb a (b3_deputy x) then
         if Nat.eqb rcp (b3_deputy x) then Err           (* deputy cannot be both sender and receiver *)
         else if negb rest then Err
-        else Ok (set_swaps s (mkSwap a rcp d amt true :: swaps s)) []
+        (* the recipient's account is registered when it does not exist *)
+        else Ok (set_accs (set_swaps s (mkSwap a rcp d amt true :: swaps s)) (upd (accs s) rcp true)) []
       else
         if negb (Nat.eqb rcp (b3_deputy x)) then Err    (* deputy must be recipient for outgoing *)
         else if negb rest then Err
@@ -812,8 +816,8 @@ Definition fn2 (l : list (nat * nat * Z)) : nat -> nat -> Z :=
   fun a b => match find (fun p => Nat.eqb (fst (fst p)) a && Nat.eqb (snd (fst p)) b) l with
              | Some p => snd p | None => 0 end.
 
-Definition mk_env (n nu : nat) (t : Z) (macc exist : list bool) (g nd np em : nat) (strat : list nat) : env :=
-  mkEnv n nu t (nthB macc) (nthB exist) g nd np em (fun d => nth d strat 0%nat).
+Definition mk_env (n nu : nat) (t : Z) (macc : list bool) (g nd np em : nat) (strat : list nat) : env :=
+  mkEnv n nu t (nthB macc) g nd np em (fun d => nth d strat 0%nat).
 
 Definition mk_state
   (mk : list (nat * list nat)) (pr : list (nat * nat * (Z * Z)))
@@ -822,7 +826,7 @@ Definition mk_state
   (coms : list committee) (props : list (nat * (nat * Z))) (npid : nat) (vts : list (nat * nat * nat))
   (cp : Z * Z * Z)
   (cds : list (nat * cdp)) (nc : nat) (cdeps : list (nat * nat * Z))
-  (hd sd : list (nat * nat * Z)) (pools : list (Z * Z * Z)) (ssh esh : list (nat * nat * Z)) : state :=
+  (hd sd : list (nat * nat * Z)) (pools : list (Z * Z * Z)) (ssh esh : list (nat * nat * Z)) (exist : list bool) : state :=
   mkState mk
     (fun m a => match find (fun p => Nat.eqb (fst (fst p)) m && Nat.eqb (snd (fst p)) a) pr with
                 | Some p => Some (snd p) | None => None end)
@@ -836,7 +840,7 @@ Definition mk_state
     cp
     (fun i => match find (fun p => Nat.eqb (fst p) i) cds with Some p => Some (snd p) | None => None end)
     nc (fn2 cdeps)
-    (fn2 hd) (fn2 sd) (fun p => nth p pools (0, 0, 0)) (fn2 ssh) (fn2 esh).
+    (fn2 hd) (fn2 sd) (fun p => nth p pools (0, 0, 0)) (fn2 ssh) (fn2 esh) (nthB exist).
 
 Record history := mkHist {
   h_env : env;
